@@ -53,8 +53,8 @@ class Capture:
 
 
 def extract_obligations(chk, ex_mod, tier, rng):
-    temps = [0.0, 100.0, 250.0, 300.0]
-    press = [0.0, 10.0, 25.0]
+    temps = [0.0, 100.0, 250.0, 300.0] if tier == "quick" else [0.0, 100.0, 250.0, 300.0, 475.0, 600.0, 900.0, 1300.0]
+    press = [0.0, 10.0, 25.0] if tier == "quick" else [0.0, 10.0, 25.0, 40.0, 70.0, 115.0]
     for mode in ("temperature", "pressure"):
         for variant in ("one grid", "each variable tabulated on its own grid along the selected axis"):
             name = "extract[-%s y, y symbolic, %s]" % ("T" if mode == "temperature" else "P", variant)
@@ -334,13 +334,13 @@ def precision_twin(chk, ex_mod, ge_mod):
 
 
 def geotherm_obligations(chk, ge_mod, tier, rng):
-    temps = [300.0, 500.0, 700.0]
-    press = [0.0, 10.0, 20.0, 30.0]
+    temps = [300.0, 500.0, 700.0] if tier == "quick" else [300.0, 500.0, 700.0, 1100.0, 1900.0, 2500.0]
+    press = [0.0, 10.0, 20.0, 30.0] if tier == "quick" else [0.0, 10.0, 20.0, 30.0, 60.0, 135.0]
     for opts, cols in ((dict(), ("P", "T")), (dict(p_col="Pres", t_col="Temp"), ("Pres", "Temp"))):
         name = "geotherm[%s]" % ("default column names" if not opts else "--p-col Pres --t-col Temp")
         ctx = new_context()
         tab, vals = sym_table(ctx, "bm", temps, press)
-        n = 3
+        n = 3 if tier == "quick" else 6
         # the property quantifies over geotherm paths inside the tabulated range
         Pg = symvars("Pgeo", (n,), lo=Fraction(press[0]), hi=Fraction(press[-1]))
         Tg = symvars("Tgeo", (n,), lo=Fraction(temps[0]), hi=Fraction(temps[-1]))
